@@ -344,6 +344,9 @@ pub enum Verdict {
 pub struct Ctx {
     pub faults: Vec<Fault>,
     pub unspec: Vec<String>,
+    /// the input contains something the subject's CBOR parser may fold or refuse wholesale
+    /// (bignum tags, unassigned simple values): nothing about accept/reject is specified then
+    pub parser_unspec: bool,
     /// nesting of bstr-wrapped header maps seen so far
     pub bstr_depth: usize,
 }
@@ -366,6 +369,9 @@ impl Ctx {
         }
     }
     pub fn finish(self, v: Option<RVal>) -> Verdict {
+        if self.parser_unspec {
+            return Verdict::Unspecified(self.unspec);
+        }
         if !self.faults.is_empty() {
             let mut f = self.faults;
             f.sort();
@@ -403,12 +409,15 @@ fn opaque(c: &mut Ctx, i: &Item) -> Item {
     }
     if i.has_unassigned_simple() {
         c.unspec("unassigned simple value");
+        c.parser_unspec = true;
     }
     if i.has_bignum_tag() {
         c.unspec("bignum tag");
+        c.parser_unspec = true;
     }
     if i.depth() > 100 {
         c.unspec("deeply nested opaque value");
+        c.parser_unspec = true;
     }
     i.clone()
 }
@@ -418,12 +427,15 @@ fn check_parser_unspec(c: &mut Ctx, i: &Item) {
     // accept side unspecified (the parser may fold or refuse them)
     if i.has_unassigned_simple() {
         c.unspec("unassigned simple value");
+        c.parser_unspec = true;
     }
     if i.has_bignum_tag() {
         c.unspec("bignum tag");
+        c.parser_unspec = true;
     }
     if i.depth() > 100 {
         c.unspec("deep nesting");
+        c.parser_unspec = true;
     }
 }
 
@@ -614,13 +626,18 @@ pub fn protected_content(c: &mut Ctx, content: &[u8]) -> RProtected {
             let mut sub = Ctx { bstr_depth: c.bstr_depth, ..Default::default() };
             header_map(&mut sub, &it);
             c.faults.extend(sub.faults);
+            c.parser_unspec |= sub.parser_unspec;
             for u in sub.unspec {
                 c.unspec(&u);
             }
         }
-        ReadAll::Err(ReadErr::TooDeep) => c.unspec("deep nesting"),
+        ReadAll::Err(ReadErr::TooDeep) => {
+            c.unspec("deep nesting");
+            c.parser_unspec = true;
+        }
         ReadAll::Err(ReadErr::Malformed("two-byte simple value below 32")) => {
-            c.unspec("two-byte encoding of a simple value below 32")
+            c.unspec("two-byte encoding of a simple value below 32");
+            c.parser_unspec = true;
         }
         ReadAll::Err(_) => c.other("P2 protected content is not one well-formed item"),
     }
